@@ -175,7 +175,7 @@ def gen_case_i(seed, tier, index):
             first = False
         cycle(0, 0, cur["data"])
     return {"config": config, "sched": {"mode": sc.choice(["seeded", "seeded", "reverse", "insertion"]),
-                                        "seed": sc.randrange(1 << 32)}, "steps": steps}
+                                        "seed": sc.randrange(1 << 32)}, "steps": steps, "reuse": fl.random() < 0.15}
 
 
 def gen_case(seed, tier):
@@ -314,6 +314,14 @@ def run_case(case):
             dig.add((st["k"], obs[0], obs[1]))
 
     run_guarded(res, lambda: run.run(body))
+    if res.violation is None and case.get("reuse") and True:
+        # second use of the very same design object: elaborated and simulated again, it must behave identically
+        first = dig.restart()
+        run2 = ManualRun(dut, [DomainSpec("sync", edge=config["edge"])], sched_mode=case["sched"]["mode"], sched_seed=case["sched"]["seed"])
+        run_guarded(res, lambda: run2.run(body))
+        stats["faults"]["reuse"] = stats["faults"].get("reuse", 0) + 1
+        if res.violation is None and dig.hexdigest() != first:
+            res.violation = {"oracle": "second_use_of_same_object_differs", "step": -1, "detail": {}}
     stats["decisions"] = run.decisions
     dig.add_events(run.events)
     nontrivial = P["words"] >= 2 and any(F.values())
